@@ -8,6 +8,7 @@ import (
 	"os"
 	"sort"
 	"strconv"
+	"strings"
 	"syscall"
 
 	"golang.org/x/sys/unix"
@@ -252,4 +253,48 @@ func Unsent(fd int) int {
 		return -1
 	}
 	return n
+}
+
+var portCounter uint32
+
+// ClaimUDPPort hands out a UDP port below the kernel's ephemeral range that no other harness process is using (an
+// advisory lock on a file per port, held until release) and on which nothing is bound at the moment. sonic's UDPPeer
+// sets SO_REUSEPORT, and a bind to port 0 with that option may be given a port that another such socket of the same user
+// - in another test process - already has; the kernel then spreads the unicast datagrams over both. Ports taken from
+// here cannot be handed out by the kernel's port-0 selection.
+func ClaimUDPPort() (port int, release func(), err error) {
+	_ = os.MkdirAll("/tmp/verif-udp-ports", 0o777)
+	for try := 0; try < 4000; try++ {
+		portCounter++
+		p := 20000 + int((uint32(os.Getpid())*7919+portCounter*31)%12000)
+		f, err := os.OpenFile(fmt.Sprintf("/tmp/verif-udp-ports/%d", p), os.O_CREATE|os.O_RDWR, 0o666)
+		if err != nil {
+			return 0, nil, err
+		}
+		if syscall.Flock(int(f.Fd()), syscall.LOCK_EX|syscall.LOCK_NB) != nil {
+			_ = f.Close()
+			continue
+		}
+		if udpPortInUse(p) {
+			_ = f.Close()
+			continue
+		}
+		return p, func() { _ = f.Close() }, nil
+	}
+	return 0, nil, fmt.Errorf("no free UDP port found between 20000 and 32000")
+}
+
+func udpPortInUse(port int) bool {
+	b, err := os.ReadFile("/proc/net/udp")
+	if err != nil {
+		return false
+	}
+	want := fmt.Sprintf(":%04X", port)
+	for _, line := range strings.Split(string(b), "\n")[1:] {
+		f := strings.Fields(line)
+		if len(f) > 2 && strings.HasSuffix(f[1], want) {
+			return true
+		}
+	}
+	return false
 }
